@@ -249,6 +249,9 @@ func (e *enc) run(fr *frame, atEntry Term) {
 			e.loopHeader(fr, b)
 		}
 		for _, in := range b.Instrs {
+			if c, ok := in.(*ssa.Call); ok && fr.contract != nil && len(fr.contract.CoverBefore) > 0 {
+				e.aroundCall(fr, c, fr.contract.CoverBefore, "cover-before@")
+			}
 			if c, ok := in.(*ssa.Call); ok && fr.contract != nil && len(fr.contract.Before) > 0 {
 				e.aroundCall(fr, c, fr.contract.Before, "assert-before@")
 			}
@@ -907,6 +910,15 @@ func (e *enc) aroundCall(fr *frame, c *ssa.Call, table map[string][]Clause, cls 
 			e.contractError(fr, fmt.Sprintf("assert at %s: %v", key, err))
 			continue
 		}
+		if cls == "cover-before@" {
+			// reachability: the call can be reached in a state satisfying the clause (sat expected; nothing is assumed)
+			save := fr.cur
+			fr.cur = fmt.Sprintf("(and %s %s)", fr.cur, g)
+			o := e.oblige(fmt.Sprintf("%s%s.%d", cls, key, i+1), "false", c.Pos(), "reachable with: "+cl.Text)
+			o.Cover = true
+			fr.cur = save
+			continue
+		}
 		e.oblige(fmt.Sprintf("%s%s.%d", cls, key, i+1), g, c.Pos(), cl.Text)
 		e.assumeAt(g)
 	}
@@ -1474,6 +1486,7 @@ func (e *enc) instr(b *ssa.BasicBlock, in ssa.Instruction) {
 			e.commuteSites = append(e.commuteSites, commuteSite{ord: fr.activeRange.ord, pos: x.Pos(), at: fr.cur, key: e.value(x.Key), val: val, rk: fr.activeRange.curKey,
 				nd0: fr.activeRange.nd0, nf0: fr.activeRange.nf0, nd1: len(e.decls), nf1: len(e.defs), text: x.String()})
 		}
+		e.checkFreshMaps(fr, x)
 		nv := fmt.Sprintf("(mk_%s (store (dom_%s %s) %s true) (store (val_%s %s) %s %s) false)", ms, ms, m, e.value(x.Key), ms, m, e.value(x.Key), e.value(x.Value))
 		if prov, ok := fr.prov[x.Map]; ok {
 			e.write(prov, nv)
@@ -1609,6 +1622,81 @@ func (e *enc) wrapOpaque(u, s string, t Term) Term {
 		e.decls = append(e.decls, fmt.Sprintf("(assert (forall ((x %s)) (! (= (%s (%s x)) x) :pattern ((%s x)))))", s, g, f, f))
 	})
 	return fmt.Sprintf("(%s %s)", f, t)
+}
+
+// checkFreshMaps: the model writes a map held as a value of another map back into its entry, which is only right if no
+// two entries hold the same map. Obligation (syntactic, per store): every map placed into an entry — directly or as a
+// field of the stored struct — is a `make` executed in the same iteration of every loop around the store.
+func (e *enc) checkFreshMaps(fr *frame, x *ssa.MapUpdate) {
+	var srcs []ssa.Value
+	switch vt := x.Value.Type().Underlying().(type) {
+	case *types.Map:
+		srcs = append(srcs, x.Value)
+	case *types.Struct:
+		hasMap := false
+		for i := 0; i < vt.NumFields(); i++ {
+			if _, ok := vt.Field(i).Type().Underlying().(*types.Map); ok {
+				hasMap = true
+			}
+		}
+		if !hasMap {
+			return
+		}
+		// the stored struct is loaded from a composite literal: collect the maps stored into its fields
+		u, ok := x.Value.(*ssa.UnOp)
+		if !ok {
+			srcs = append(srcs, nil)
+			break
+		}
+		al, ok := u.X.(*ssa.Alloc)
+		if !ok || al.Referrers() == nil {
+			srcs = append(srcs, nil)
+			break
+		}
+		for _, r := range *al.Referrers() {
+			fa, ok := r.(*ssa.FieldAddr)
+			if !ok || fa.Referrers() == nil {
+				continue
+			}
+			if _, isMap := fa.Type().(*types.Pointer).Elem().Underlying().(*types.Map); !isMap {
+				continue
+			}
+			for _, rr := range *fa.Referrers() {
+				if st, ok := rr.(*ssa.Store); ok && st.Addr == ssa.Value(fa) {
+					srcs = append(srcs, st.Val)
+				}
+			}
+		}
+	default:
+		return
+	}
+	ok := true
+	why := ""
+	for _, s := range srcs {
+		mm, isMake := s.(*ssa.MakeMap)
+		if s == nil || !isMake {
+			if c, isConst := s.(*ssa.Const); isConst && c.IsNil() {
+				continue
+			}
+			ok, why = false, "a stored map is not a fresh make(map) of this function"
+			break
+		}
+		// every loop containing the store must contain the make
+		for h := range fr.loopHead {
+			body := fr.loopBlocks(h)
+			if body[x.Block()] && !body[mm.Block()] {
+				ok, why = false, fmt.Sprintf("the map made at %s is stored into an entry on every iteration of a loop that does not re-make it", e.w.Prog.Fset.Position(mm.Pos()))
+			}
+		}
+	}
+	goal := "true"
+	if !ok {
+		goal = "false"
+	}
+	save := fr.cur
+	fr.cur = "true"
+	e.oblige("share", goal, x.Pos(), "maps stored into map entries are fresh per entry (no two entries share a map) "+why)
+	fr.cur = save
 }
 
 // sliceCell: the cell holding the current content of a slice variable whose elements are assigned in place
